@@ -267,6 +267,7 @@ func init() {
 	vfNatives["vfHashBits"] = func(fr *frame, a []value) value { fr.i.side["hashbits"] = int(asInt64(a[0])); return nil }
 	vfNatives["vfHashConcrete"] = func(fr *frame, a []value) value { fr.i.side["hashconcrete"] = true; return nil }
 	vfNatives["vfSchedBudget"] = func(fr *frame, a []value) value { fr.i.S.switchBudget = int(asInt64(a[0])); return nil }
+	vfNatives["vfSchedLIFO"] = func(fr *frame, a []value) value { fr.i.S.lifo = fr.i.truth(a[0]); return nil }
 	vfNatives["vfMaxTicks"] = func(fr *frame, a []value) value { fr.i.S.maxTicks = int(asInt64(a[0])); return nil }
 	vfNatives["vfExpectPanic"] = func(fr *frame, a []value) value { fr.i.p.expectPanic = argString(a[0]); return nil }
 	vfNatives["vfExpectDeadlock"] = func(fr *frame, a []value) value { fr.i.p.expectDeadlock = true; return nil }
@@ -378,7 +379,7 @@ func init() {
 		wg := a[0].(*value)
 		f := a[1]
 		i.wgAdd(fr, wg, 1)
-		i.S.spawn(i, &nativeClosure{func(fr2 *frame, _ []value) value {
+		i.S.spawn(i, &nativeClosure{name: funcName(f), f: func(fr2 *frame, _ []value) value {
 			defer func() {
 				if r := recover(); r != nil {
 					switch r.(type) {
